@@ -210,13 +210,25 @@ def make_probe(seed, slot, status, loc, office="G", district=None, threshold=100
         u["in_feed"] = False
     elif status == "nan_result":
         u["r_nan"] = True  # the feed has a row for the unit, but without results yet
+    elif status in COMPOSITE_STATUSES:
+        # a unit outside the model for one reason that has also not shown up in the feed (or only as a row without results)
+        first, second = status.split("+")
+        if first == "zero_baseline":
+            u.update(b_dem=0, b_gop=0, b_turnout=0)
+        if second == "missing":
+            u["in_feed"] = False
+        else:
+            u["r_nan"] = True
     else:
         raise ValueError(status)
     return u
 
 
+COMPOSITE_STATUSES = ["unit_blocklisted+missing", "unit_blocklisted+nan_result", "zero_baseline+missing", "zero_baseline+nan_result"]
+
+
 def blocklists_for(units):
-    ub = sorted(u["id"] for u in units if u.get("status") == "unit_blocklisted")
+    ub = sorted(u["id"] for u in units if u.get("status", "").startswith("unit_blocklisted"))
     sb = sorted({u["postal"] for u in units if u.get("status") == "state_blocklisted"})
     return ub, sb
 
@@ -321,13 +333,14 @@ def frames(units, cfg):
             brow.append(row)
         if u["in_feed"]:
             nan = u.get("r_nan", False)  # the feed has a row for the unit but no results yet
+            blank = u.get("nan_cols", ())  # single result columns the feed leaves empty for this unit
             frow.append(
                 {
                     "postal_code": u["postal"],
                     "geographic_unit_fips": u["id"],
-                    "results_turnout": None if nan else u["r_turnout"],
-                    "results_dem": None if nan else u["r_dem"],
-                    "results_gop": None if nan else u["r_gop"],
+                    "results_turnout": None if nan or "turnout" in blank else u["r_turnout"],
+                    "results_dem": None if nan or "dem" in blank else u["r_dem"],
+                    "results_gop": None if nan or "gop" in blank else u["r_gop"],
                     "percent_expected_vote": u["pev"],
                 }
             )
